@@ -144,6 +144,22 @@ PROPERTIES = {
         not_decided=['HTML and sitemap scrapers (lxml / html5lib cannot be imported in this sandbox): not examined', 'FTP client Session.start/download_listing bodies (asyncio.wait_for, '
                      'TextIOWrapper): only their callees are under contract', 'RobotsTxtChecker: C20'],
     ),
+    'C20': dict(
+        modules=['filters', 'rule', 'robots'], level='proof', bounded=['c20_nofollow.py'],
+        claim='RobotsTxtPool as a map from origin key (scheme, host, port) to the loaded rules: has_parser / can_fetch / load_robots_txt read and write exactly the entry of '
+              'the URL\'s origin; can_fetch is the third-party matcher\'s verdict for the user-agent string as given and the URL. RobotsTxtChecker: can_fetch_pool raises '
+              'NotInPoolError exactly on a miss; fetch_robots_txt follows the fetch session to its last response and then stores the WHOLE file for status 200, blank rules '
+              '(allow all) for other statuses and for a protocol error, and for 5xx raises ServerError with NOTHING stored (the URL is postponed and robots.txt is asked '
+              'again); can_fetch fetches only on a miss, never replaces an entry once obtained, leaves other origins untouched. FetchRule.check_initial_web_request: a '
+              'positive verdict implies the robots verdict (C02 run proves the filter part). ElementWalker.robots_cannot_follow is the HTML-standard test. Three genuine '
+              'defects were repaired (fix: commits); one is recorded as a known finding (redirect targets are not checked against robots.txt).',
+        note='assumed: the bundled robotexclusionrulesparser is a deterministic function (text, agent, URL) -> bool and parses any empty text; the WebSession that fetches '
+             '/robots.txt (its own contracts: C18/C16/C09); Body.read from offset 0; the robots URL re-parses (C10). Bounded stand-in c20_nofollow.py (labelled bounded): the real '
+             'HTMLScraper.scrape / _process_elements with a stub tokenizer (lxml and html5lib are not importable here).',
+        not_decided=['"for all crawl orders and concurrency levels": the pool is only reached through the contracts above; interleavings of two item sessions fetching the same '
+                     'robots.txt concurrently may fetch it twice (no lock): not examined', 'WebProcessorSession.process / _process_robots ordering (robots before the first request): '
+                     'read from the code, not under contract'],
+    ),
     'C15': dict(
         modules=['path'], level='proof', bounded=['c15_names.py'],
         claim='Per-byte lemma on the real PercentEncoder.__missing__ for all 256 byte values and all 16 option combinations: the separator is escaped in unix and windows mode, '
